@@ -321,9 +321,70 @@ class RecResource(_RecMixin, ResourceProvider):
 
 
 # ---------------------------------------------------------------------------------------
+def _ident():
+    """The ident the agent's own thread-local code would see (the E1 harness gives its threads stable idents there)."""
+    import deep.thread_local as TL
+    return TL.threading.get_ident()
+
+
+class PendingMirror:
+    """Stands in front of the handler's per-thread store of pending work (deep.thread_local.ThreadLocal) and remembers, per thread ident,
+    the value each thread was given - so that the harness can see from any thread what a thread has pending, and what a thread that has
+    ended left behind (the agent's own store cannot be asked that once it is a threading.local). Same interface, every call forwarded."""
+
+    ALL = []
+
+    def __init__(self, real):
+        self.real = real
+        self.seen = {}      # ident -> the container handed to that thread
+        PendingMirror.ALL.append(self)
+
+    def get(self):
+        v = self.real.get()
+        self.seen[_ident()] = v
+        return v
+
+    def set(self, val):
+        self.real.set(val)
+        self.seen[_ident()] = val
+
+    def clear(self):
+        self.real.clear()
+        self.seen.pop(_ident(), None)
+
+    @property
+    def is_set(self):
+        return self.real.is_set
+
+    @property
+    def value(self):
+        return self.get()
+
+    @value.setter
+    def value(self, v):
+        self.set(v)
+
+
+def pending_store():
+    """{thread ident: number of pending contexts} over the agents of this execution (threads that cleared their entry are absent)."""
+    out = {}
+    for m in PendingMirror.ALL:
+        for ident, v in m.seen.items():
+            out[ident] = out.get(ident, 0) + len(v)
+    return out
+
+
+def pending_clear():
+    for m in PendingMirror.ALL:
+        m.seen.clear()
+
+
 def reset_agent_globals():
-    """The two pieces of process-global agent state that would leak between executions (DESIGN §9)."""
-    ThreadLocal._ThreadLocal__store.clear()
+    """The pieces of process-global agent state that would leak between executions (DESIGN §9)."""
+    store = getattr(ThreadLocal, '_ThreadLocal__store', None)
+    if store is not None:
+        store.clear()
+    del PendingMirror.ALL[:]
 
 
 class Agent:
@@ -342,6 +403,7 @@ class Agent:
         self.config.resource = Resource.create({'service.name': 'verif'})
         self.push = push or CapturePush()
         self.handler = TriggerHandler(self.config, self.push)
+        self.handler._callbacks = PendingMirror(self.handler._callbacks)
 
     def install(self, triggers):
         self.handler.new_config(list(triggers))
